@@ -180,7 +180,7 @@ func c13stall(rep *vh.Report, seed uint64, idx int, j int) {
 	}
 	withAuto := idx%2 == 1
 	if withAuto {
-		c13HeartbeatPeriod = 15 * time.Millisecond
+		c13HeartbeatPeriod = 40 * time.Millisecond
 		defer func() { c13HeartbeatPeriod = 0 }()
 	}
 	n := c13start(rep, k, false, idx%4 >= 2)
@@ -374,7 +374,7 @@ func c13stall(rep *vh.Report, seed uint64, idx int, j int) {
 			return c
 		}
 		base := hbCount()
-		ok := waitFor(func() bool { return hbCount() >= base+4 }, func() int64 { return 0 }, 400*time.Millisecond)
+		ok := waitFor(func() bool { return hbCount() >= base+3 }, func() int64 { return 0 }, 700*time.Millisecond)
 		if !ok {
 			rep.Violation("what=silent-dead:heartbeat ep=custom", fmt.Sprintf("after the stall was released the channel is open and carries application writes again, but the node's heartbeats (period %v) no longer come out on it", c13HeartbeatPeriod),
 				map[string]interface{}{"stalled": stalled, "heartbeats_seen_after_release": hbCount() - base})
